@@ -347,6 +347,7 @@ fn main() {
     for _ in 0..(if quick { 2500 } else { 40000 }) {
         progs.push((overflow_program(&mut rng), "overflow"));
     }
+    progs.extend(pgen::directed_programs().into_iter().map(|(p, _, tag)| (p, tag)));
     for (k, (p, tag)) in progs.iter().enumerate() {
         if which == "vm" {
             if k % 2 == 0 {
